@@ -222,7 +222,45 @@ def judge(stages, spec_keys=("A", "B", "C")):
     return out, n
 
 
-def run_in(ctx, stages, spec_keys=("A", "B", "C")):
+def judge_plots(names, spec_keys=("A", "C")):
+    """a run in which a diagnostic plot is requested (headless backend, show() stubbed) produces the table of the same run
+    without plots, bit for bit: the plot helpers receive the very arrays the stages return. A plot helper that itself
+    fails (some do for degenerate data) is outside every listed property and is skipped."""
+    import matplotlib
+
+    matplotlib.use("Agg")
+    import matplotlib.pyplot as plt
+    import nuspacesim
+
+    out = []
+    n = 0
+    show = plt.show
+    plt.show = lambda *a, **k: None
+    try:
+        for k in spec_keys:
+            cfg = sim.make_config(**SPECS[k])
+            with sim.owned(5, "synchronous"), own.quiet(), np.errstate(all="ignore"):
+                t0 = nuspacesim.compute(cfg)
+            for nm in names:
+                cfg = sim.make_config(**SPECS[k])
+                try:
+                    with sim.owned(5, "synchronous"), own.quiet(), np.errstate(all="ignore"):
+                        t1 = nuspacesim.compute(cfg, to_plot=[nm])
+                except Exception:
+                    continue
+                finally:
+                    plt.close("all")
+                n += 1
+                if sim.table_digest(t0) != sim.table_digest(t1):
+                    bad = [c for c in t0.colnames if c not in t1.colnames or np.asarray(t0[c]).tobytes() != np.asarray(t1[c]).tobytes()] if len(t0) == len(t1) else ["row count"]
+                    bad += [kk for kk in t0.meta if t1.meta.get(kk) != t0.meta[kk] and not (isinstance(t0.meta[kk], tuple) and isinstance(t0.meta[kk][0], float) and t0.meta[kk][0] != t0.meta[kk][0])]
+                    out.append(("requesting_a_plot_does_not_change_the_results", f"spec {k}, plot {nm}: the table of the run without plots", f"differs in {bad[:6]}", k, nm))
+    finally:
+        plt.show = show
+    return out, n
+
+
+def run_in(ctx, stages, spec_keys=("A", "B", "C"), plots=()):
     """shared entry for the checks: ticks, violations (case kind 'pipeline')"""
     v, n = judge(stages, spec_keys)
     for k in spec_keys:
@@ -231,8 +269,18 @@ def run_in(ctx, stages, spec_keys=("A", "B", "C")):
     for c, e, o, k, st in v:
         ctx.violation(c, {"kind": "pipeline", "spec": k, "stage": st}, e, o)
     ctx.cov["pipeline_stage_replays"] = n
+    if plots:
+        v, n = judge_plots(list(plots))
+        for nm in plots:
+            ctx.tick(2, ("plot", nm))
+        for c, e, o, k, nm in v:
+            ctx.violation(c, {"kind": "pipeline", "spec": k, "plot": nm}, e, o)
+        ctx.cov["runs_with_a_plot_requested"] = n
 
 
 def replay(case):
+    if case.get("plot"):
+        v, _ = judge_plots([case["plot"]], (case["spec"],))
+        return [(c, e, o) for c, e, o, k, nm in v]
     v, _ = judge([case["stage"]] if case.get("stage") else list(STAGE_IO), (case["spec"],))
     return [(c, e, o) for c, e, o, k, st in v]
